@@ -200,7 +200,9 @@ theorem widen_sat {α} (t : ATag) (xs : List Val) (fs : List (Val → Res Val)) 
   | err cs =>
     simp only [widen]
     split
-    · rw [List.append_assoc]; exact PeOk.more _ _ h
+    · split
+      · trivial
+      · rw [List.append_assoc]; exact PeOk.more _ _ h
     · exact h
   | ok a => exact h
   | panic w => exact h
